@@ -35,8 +35,11 @@ ColPoints(i) == {<<p, {e \in EPs(UU[i]) : p \in UU[i].pts[e]}>> :
 HintBad == {i \in DOMAIN Unis : Unis[i].ring /\ ~SortedHintOK(UU[i], Unis[i].sorted)}
 
 \* ---- one operation on the installed list
+\* "tick": the endpoint manager asked its registry again and was told the endpoint set it already had (in whatever
+\* order): the set is unchanged, nothing is installed (Manager!Tick) -- every code stays where it was.
 ApplyOp(U, l, st) == CASE st.op = "add"    -> ListAdd(U, l, st.e)
                        [] st.op = "remove" -> ListRemove(U, l, st.e)
+                       [] st.op = "tick"   -> l
                        [] OTHER            -> ListRefresh(U, st.eps)
 
 RECURSIVE ListsFrom(_, _, _, _, _)
@@ -60,6 +63,7 @@ KFFrom(U, steps, k, n, l, r, lw, ba, owned) ==
     ELSE IF steps[k].op = "add" THEN
             KFFrom(U, steps, k + 1, n, ListAdd(U, l, steps[k].e),
                    (IF HasHost(U, l, steps[k].e) THEN r ELSE RingAddP(U, r, steps[k].e, lw)) @@ EmptyRing, lw, ba, owned)
+    ELSE IF steps[k].op = "tick" THEN KFFrom(U, steps, k + 1, n, l, r, lw, ba, owned)
     ELSE IF steps[k].op = "remove" THEN
             KFFrom(U, steps, k + 1, n, ListRemove(U, l, steps[k].e),
                    (IF ~HasHost(U, l, steps[k].e) THEN r
